@@ -22,8 +22,9 @@ impl Property for C03 {
         "chains and diamonds with checksummed targets at depth 1-3 (some also redo-always, some with \
          noise lines that change the bytes but not the checksum), plain and always dependents on top; \
          histories of 3-8 steps: source edits that do or do not reach a checksummed target's stamped \
-         content (a checksummed target may read only one of two sources), removal of a checksummed \
-         target's file, unchanged repeats; both the direct path (the checksummed target is requested) \
+         content (a checksummed target may read only one of two sources), edits that restore an earlier \
+         content (the checksum returns to an old value), rule edits that drop and re-add the redo-stamp \
+         call, removal of a checksummed target's file, unchanged repeats; both the direct path (the checksummed target is requested) \
          and the out-of-band path (a dependent is requested); oracle: SeenModel must/may sets (a rebuilt \
          checksummed target with unchanged checksum never makes a dependent must- or may-run; a changed \
          one makes every recorded dependent in the requested closure must-run) plus from-scratch \
@@ -118,11 +119,45 @@ impl Property for C03 {
         let t0 = if rng.chance(2, 3) { "all".to_string() } else { pick_target(rng) };
         sc.history
             .push(Step::Cmds(vec![redo_cmd(rng, "redo-ifchange", &[t0], 3, 100)]));
+        // toggle the redo-stamp call of a checksummed target (same rule version,
+        // so the produced bytes do not change with it)
+        let toggle_stamp = |sc: &mut Scenario, rng: &mut Rng, names: &[String]| {
+            let n = rng.pick(names).clone();
+            let path = format!("{}.do", n);
+            if let Some(mut rule) = current_rule(sc, &path) {
+                if let Some(k) = rule.stmts.iter().position(|s| matches!(s, Stmt::Stamp { .. })) {
+                    rule.stmts.remove(k);
+                } else {
+                    rule.stmts.push(Stmt::Stamp { only: Vec::new() });
+                }
+                sc.history.push(Step::SetRule { path, rule: Some(rule) });
+            }
+        };
+        if rng.chance(1, 5) {
+            // a content (and checksum) that goes away and comes back: stamped with
+            // source version a, rebuilt unstamped with version b, stamped again with a
+            let path = "c0.do".to_string();
+            let stamped = current_rule(&sc, &path).unwrap();
+            let mut plain = stamped.clone();
+            plain.stmts.retain(|s| !matches!(s, Stmt::Stamp { .. }));
+            let t = pick_target(rng);
+            sc.history.push(Step::SetRule { path: path.clone(), rule: Some(plain) });
+            ver[0] += 1;
+            sc.history.push(Step::Write { path: sources[0].clone(), bytes: source_content(&sources[0], ver[0]) });
+            sc.history.push(Step::Cmds(vec![redo_cmd(rng, "redo-ifchange", &[t.clone()], 3, 100)]));
+            sc.history.push(Step::SetRule { path, rule: Some(stamped) });
+            ver[0] -= 1;
+            sc.history.push(Step::Write { path: sources[0].clone(), bytes: source_content(&sources[0], ver[0]) });
+            sc.history.push(Step::Cmds(vec![redo_cmd(rng, "redo-ifchange", &[t], 3, 100)]));
+        }
         let steps = rng.range(3, 8);
         let mut since = 0;
         for _ in 0..steps {
             let r = rng.below(100);
-            if since >= 2 || r < 45 {
+            if since < 2 && r >= 92 {
+                toggle_stamp(&mut sc, rng, &names);
+                since += 1;
+            } else if since >= 2 || r < 45 {
                 let t = pick_target(rng);
                 let prog = if rng.chance(1, 6) { "redo" } else { "redo-ifchange" };
                 sc.history
@@ -130,7 +165,12 @@ impl Property for C03 {
                 since = 0;
             } else if r < 75 {
                 let i = rng.below(nsrc as u64) as usize;
-                ver[i] += 1;
+                // forward to a new version, or back to the previous content
+                if ver[i] > 0 && rng.chance(1, 3) {
+                    ver[i] -= 1;
+                } else {
+                    ver[i] += 1;
+                }
                 sc.history.push(Step::Write {
                     path: sources[i].clone(),
                     bytes: source_content(&sources[i], ver[i]),
